@@ -200,7 +200,7 @@ class Gen:
     def probes(self, full=False):
         n_reads = 6 if full else 2
         self.emit("readsync - - -", "probe_read")
-        for c in self.ctxs[:4]:
+        for c in (self.ctxs[:2] + self.ctxs[-3:]):
             self.emit(f"{self.r.choice(['readsync', 'read'])} - - {c}", "probe_read")
         for _ in range(n_reads):
             last, limit, ctx = self.read_args()
@@ -229,6 +229,16 @@ class Gen:
         kinds = list(w)
         if self.r.random() < 0.8:
             self.op_register()
+        if self.r.random() < self.p.get("p_ff_ctx", 0.25):
+            # contexts with chosen ids: one ending in 0xFF and its neighbours (byte-wise range-end arithmetic)
+            base = (self.r.randrange(1, 2 ** 100) << 8) | 0xFF
+            for off in (0, 1, self.r.choice([0x80, 2, 0x100])):
+                ln = self.emit(f"import #{base + off:x} - {xh(XS_CONTEXT)} - - -", "import_reg_ff")
+                self.ctxs.append(f"@{ln}")
+                self.frames.append(dict(line=ln, ctx="-", topic=XS_CONTEXT, ttl="-", kind="ctx"))
+            for c in self.ctxs[-3:]:
+                self.emit(f"append {c} {xh('a')} - - -", "append")
+                self.frames.append(dict(line=len(self.lines) - 1, ctx=c, topic="a", ttl="-", kind="append"))
         for _ in range(n_ops):
             k = self.r.choices(kinds, [w[x] for x in kinds])[0]
             fns[k]()
